@@ -130,7 +130,11 @@ func batch(r *vh.Run, i int) {
 	if withGC {
 		pol = gcPol
 	}
-	u := vh.GenUniverse(rng, vh.UOpts{Tag: fmt.Sprint(i), Algs: i%4 == 0, NArtifact: 3 + rng.Intn(2)})
+	uo := vh.UOpts{Tag: fmt.Sprint(i), Algs: i%4 == 0, NArtifact: 3 + rng.Intn(2)}
+	if withGC && (i/3)%2 == 0 {
+		uo.NIndexes = 4 // (the scripted opening below needs two indexes over plain images)
+	}
+	u := vh.GenUniverse(rng, uo)
 	srv := vh.New(vh.Conf(vh.Dir, root, pol))
 	repos := []string{"r", "n/r"}
 	w := vh.NewWorld(r, srv, u, vh.Dir, repos...)
@@ -168,6 +172,51 @@ func batch(r *vh.Run, i int) {
 		snaps[0][rp] = cloneSnap(w.ModelSnap(rp))
 	}
 	nops := 15 + rng.Intn(20)
+	// a scripted opening for a sixth of the histories: two image indexes in one repository, the first untagged, the
+	// second tagged, then a collection - its crash images hold an index.json that still lists the removed index
+	// ahead of the retained one
+	type forced struct {
+		k   int
+		b   *vh.Blob
+		mm  *vh.Man
+		tag string
+	}
+	var script []forced
+	if withGC && (i/3)%2 == 0 {
+		var idx []*vh.Man
+		for _, mm := range u.Mans {
+			if mm.Index && mm.Subject == "" && len(mm.Refs) > 0 {
+				plain := true
+				for _, c := range mm.Refs {
+					if cm := u.ByD[c]; cm == nil || cm.Index {
+						plain = false
+					}
+				}
+				if plain {
+					idx = append(idx, mm)
+				}
+			}
+		}
+		if len(idx) >= 2 {
+			for _, b := range u.Blobs {
+				script = append(script, forced{k: 0, b: b})
+			}
+			done := map[string]bool{}
+			for _, x := range idx[:2] {
+				for _, c := range x.Refs {
+					if !done[c] {
+						done[c] = true
+						script = append(script, forced{k: 5, mm: u.ByD[c]})
+					}
+				}
+			}
+			script = append(script, forced{k: 5, mm: idx[0]}, forced{k: 5, mm: idx[1], tag: u.Tags[0]}, forced{k: 19})
+			if nops < len(script)+5 {
+				nops = len(script) + 5
+			}
+			r.Count("scripted_two_index_collections", 1)
+		}
+	}
 	for j := 1; j <= nops; j++ {
 		mu.Lock()
 		cur = j
@@ -176,14 +225,26 @@ func batch(r *vh.Run, i int) {
 		if rng.Intn(4) == 0 {
 			repo = repos[1]
 		}
+		var f *forced
+		if j <= len(script) {
+			f = &script[j-1]
+			repo = repos[0]
+		}
 		m := w.Repos[repo]
 		rec := opRec{repo: repo, writes: map[string]bool{}}
-		switch k := rng.Intn(20); {
+		k := rng.Intn(20)
+		if f != nil {
+			k = f.k
+		}
+		switch {
 		case k < 5:
 			b := u.Blobs[rng.Intn(len(u.Blobs))]
+			if f != nil {
+				b = f.b
+			}
 			rec.kind, rec.desc = "blob", "blob "+b.Name
 			rec.writes[b.D] = true
-			if rng.Intn(3) == 0 {
+			if rng.Intn(3) == 0 && f == nil {
 				// chunked: POST, PATCH, PUT
 				rec.kind = "chunked"
 				rs := w.Do(vh.Req{Method: "POST", URL: "/v2/" + repo + "/blobs/uploads/"})
@@ -207,6 +268,9 @@ func batch(r *vh.Run, i int) {
 			tag := ""
 			if rng.Intn(2) == 0 {
 				tag = u.Tags[rng.Intn(len(u.Tags))]
+			}
+			if f != nil {
+				mm, tag = f.mm, f.tag
 			}
 			rec.kind, rec.desc, rec.subject, rec.man = "put", "put "+mm.Name+" as "+tag, mm.Subject, mm.D
 			rec.writes[mm.D] = true
